@@ -16,15 +16,25 @@ TRUSTED_BASE = [
 ]
 
 
-def _match_known(known, pid, oid, text):
+def _match_known(known, pid, oid, case_json, detail):
+    """An open finding suppresses a failure only if it names this obligation AND its patterns identify the
+    failing input: `match` is searched in `<case json> <detail>`; `each_difference` must match EVERY
+    ` | `-separated difference listed in the detail (so an additional, unlisted difference is still reported)."""
+    text = f"{case_json} {detail}"
     for k in known.get('findings', []):
         if k.get('property') != pid or k.get('status', 'open') != 'open':
             continue
         if k.get('obligation') != oid:
             continue
         pat = k.get('match')
-        if pat and not re.search(pat, text or ''):
+        if pat and not re.search(pat, text, re.S):
             continue
+        each = k.get('each_difference')
+        if each:
+            body = re.sub(r'^\d+ difference\(s\): ', '', detail or '')
+            segs = [x.strip() for x in body.split(' | ') if x.strip()]
+            if not segs or not all(re.fullmatch(each, sg, re.S) for sg in segs):
+                continue
         return k
     return None
 
@@ -86,7 +96,7 @@ def conclude(pid, P, args, seed, results, wall, known, baseline):
         if r['status'] == 'undecided':
             undecided.append(f"{r['unit']}: " + '; '.join(r.get('notes', []))[:1500])
         for f in r['failures']:
-            k = _match_known(known, pid, f['obligation'], json.dumps(f.get('case', '')) + f.get('message', '') + f.get('text', ''))
+            k = _match_known(known, pid, f['obligation'], json.dumps(f.get('case', '')), f.get('rendered') or f.get('message', ''))
             if k:
                 known_hits.append((k, f, r))
             else:
